@@ -36,6 +36,12 @@ Definition py_from {A} (l : list A) (a : Z) : list A := zskipn (norm_idx (len l)
 Definition py_upto {A} (l : list A) (e : Z) : list A := zfirstn (norm_idx (len l) e) l.
 
 (* ------------------------------------------------------------------ the file and zlib *)
+(* A raw block is whatever ONE call `self._fp.read(_BUFFER_SIZE)` returned.  Nothing is assumed about its size:
+   the underlying stream may legally return any non-empty prefix of what was asked (a regular file or BytesIO
+   returns full 8192-byte blocks, an unbuffered socket file, a pipe or an io.RawIOBase wrapper returns short
+   reads); the empty answer means end of file.  The theorems quantify over ALL block lists, so every way of
+   cutting the file into reads is covered; the code must never take a short block for the end of the file.
+   (The harness records the script with the real block boundaries, including those of a short-read stream.) *)
 Inductive raw :=
 | RData (o : bytes)              (* block inside the stream: decompress() returns o *)
 | RLast (o : bytes) (u : bytes)  (* block with the end marker: returns o, eof, unused_data = u *)
